@@ -76,9 +76,11 @@ PROPS["C03"] = {
              "Set-Cookie none/one/several/empty-first; Age valid/invalid; Expires/Last-Modified). r1 fetches, r2/r3 repeat. Oracle = reference predicate from the statement "
              "(only-if always; if-direction on canonical inputs) + label truthfulness against the upstream log. Non-trivial = >=2 directives, non-lower-case, multi-line, or Set-Cookie/Age present. "
              "Distinct by (method, header list, status). TestC03Histories: the delivery and label clauses over generated histories (GET/HEAD/POST/DELETE keys, expiry, refetches that turn uncacheable, waiters, passes, stores) judged by the per-key automaton: "
-             "a response that does not qualify reaches only the request that fetched it, every non-hit answer has exactly one upstream contact, hits have none."),
+             "a response that does not qualify reaches only the request that fetched it, every non-hit answer has exactly one upstream contact, hits have none. "
+             "TestC03Forward (engine N, real sockets): 3-10 requests (POST/PUT/DELETE/PATCH with 0..70 000-byte bodies, GET, HEAD) while the origin, after reading the request, answers normally, resets the connection before any response byte, aborts in the middle of the body or answers 500: every non-GET/HEAD request reaches the origin exactly once whatever the client gets, successful responses not labelled hit involved exactly one contact, and a request the origin never answered is not answered 2xx. Non-trivial = a pass request met an origin fault."),
     "assumptions": _SIM_ASSUME[:1] + ["spellings of max-age/s-maxage other than lower case, malformed or overflowing numbers, invalid Age values and empty-only Set-Cookie lines are treated as left open by the statement (either outcome accepted) unless no reading yields a positive lifetime"],
-    "jobs": [_sim("TestC03", 4000, 150000), _sim("TestC03Histories", 800, 25000)],
+    "jobs": [_sim("TestC03", 4000, 150000), _sim("TestC03Histories", 800, 25000),
+             {"engine": "netw", "test": "TestC03Forward", "quick": {"shards": 4, "checks": 60, "timeout": 400, "shrinktime": "10s"}, "thorough": {"shards": 16, "checks": 3000, "timeout": 3400, "shrinktime": "60s"}}],
 }
 PROPS["C04"] = {
     "level": "exploration",
@@ -170,7 +172,7 @@ PROPS["C13"] = {
     "exhaustive_part": "all cells of the decision table are enumerated in every run; bodies per cell are sampled",
     "jobs": [
         {"engine": "netw", "test": "TestC13Server", "quick": {"shards": 8, "checks": 250, "timeout": 500}, "thorough": {"shards": 16, "checks": 8000, "timeout": 3400}},
-        {"engine": "unit", "test": "TestC13Table", "rapid": False, "quick": {"shards": 11, "cases": 2, "timeout": 500}, "thorough": {"shards": 11, "cases": 40, "timeout": 3400}},
+        {"engine": "unit", "test": "TestC13Table", "rapid": False, "quick": {"shards": 16, "cases": 2, "timeout": 500}, "thorough": {"shards": 16, "cases": 40, "timeout": 3400}},
     ],
 }
 PROPS["C14"] = {
@@ -210,10 +212,12 @@ PROPS["C05"] = {
              "four client Accept-Encoding values from a pool of 17 plain lists (absent, empty, gzip, br, both orders, deflate, identity, zstd, lz4/snz, x-gzip, compress, pack200-gzip, ...) x extra end-to-end headers (multi-valued, UTF-8, empty, 3 KB) x "
              "compress levels, min-length {unset,1,100,1kb,1mb}, filter; optional store. Each case drives a key through fetch + concurrent waiter, two hits, (store) a fresh dispatcher restoring from the store, and an uncacheable twin through fetch + two passes. "
              "Oracle = client-side decode equals the upstream's original bytes, Content-Encoding acceptable, Content-Length = bytes received, status and every end-to-end header line preserved. "
-             "Non-trivial = upstream encoding != identity, or a client list != {gzip}, or size around the threshold or >= 64 KiB, or a single-byte run (ratio > 10). Distinct by the scenario tuple."),
+             "Non-trivial = upstream encoding != identity, or a client list != {gzip}, or size around the threshold or >= 64 KiB, or a single-byte run (ratio > 10). Distinct by the scenario tuple. "
+             "TestC05CutBody: the first 1-2 upstream answers (2 KB..220 KB, identity/gzip/br, cacheable or not) break off in the middle of the body while 0-3 further requests are in flight, then 2-5 follow-ups with different Accept-Encoding: a request may fail visibly, but no complete 200 response may carry anything else than the full body (fetching request, waiters, later hits), and the final request gets the full body. Non-trivial = the upstream was contacted again after its cut answers and some request got the complete body."),
     "assumptions": _NETW_ASSUME + ["an empty lz4 body is sent as an empty payload (the block format has no encoding of empty input)", "x-gzip is accepted as an alias of gzip"],
     "jobs": [
         {"engine": "netw", "test": "TestC05", "quick": {"shards": 16, "checks": 120, "timeout": 600, "shrinktime": "30s"}, "thorough": {"shards": 16, "checks": 4000, "timeout": 3400, "shrinktime": "120s"}},
+        {"engine": "netw", "test": "TestC05CutBody", "quick": {"shards": 4, "checks": 25, "timeout": 600, "shrinktime": "20s"}, "thorough": {"shards": 16, "checks": 600, "timeout": 3400, "shrinktime": "60s"}},
     ],
 }
 
